@@ -299,7 +299,13 @@ def handle (op : String) (c i : Json) : Except String (Json × String) := do
               groups := ← (← J.arr (← J.key fj "groups")).mapM fun gj => do
                 pure ({ name := (← J.str (← J.key gj "name")).toList, id := ← J.nat (← J.key gj "id"),
                         members := (← J.strList (← J.key gj "members")).map String.toList } : RGroup) } : WFrame)
-    pure (J.obj [("core", J.ofStrList ((writeCore fs).map String.ofList))], "ok")
+    -- with "ecus": [{"name", "comment"}] in c the file starts with the `BU_:` line and carries the comments of the ECUs (writeCoreE)
+    if J.isNull (J.keyD c "ecus" Json.null) then
+      pure (J.obj [("core", J.ofStrList ((writeCore fs).map String.ofList))], "ok")
+    else
+      let es ← (← J.arr (← J.key c "ecus")).mapM fun ej => do
+        pure ({ name := (← J.str (← J.key ej "name")).toList, comment := ← optStr (← J.key ej "comment") } : WEcu)
+      pure (J.obj [("core", J.ofStrList ((writeCoreE es fs).map String.ofList))], "ok")
   | "post" =>
     -- i = {"lines": the lines of a file, "final": the projection of the matrix dbc.load returns (names, senders, receivers, comments,
     -- attributes that are neither carriers nor ENUM)}
